@@ -565,6 +565,9 @@ pub struct C03Stats {
 }
 
 pub struct C03 {
+	/// per node: the forwarding policies (fee base, ppm) of all its channels as of the start of the case (a channel closed
+	/// later is no longer listed by its node, its policy still applied to HTLCs forwarded over it)
+	start_pols: Vec<Vec<(u64, u64)>>,
 	pub meta: Vec<PayMeta>,
 	pub co: CommitOracle,
 	pub co_dead: Option<String>,
@@ -601,7 +604,9 @@ impl C03 {
 	pub fn new(sim: &mut Sim) -> C03 {
 		let mut co = CommitOracle::new(sim);
 		co.allow_force_close = true;
+		let start_pols: Vec<Vec<(u64, u64)>> = (0..sim.w.n).map(|i| sim.w.nodes[i].node.list_channels().iter().filter_map(|c| c.config).map(|c| (c.forwarding_fee_base_msat as u64, c.forwarding_fee_proportional_millionths as u64)).collect()).collect();
 		let mut c = C03 {
+			start_pols,
 			meta: vec![],
 			co,
 			co_dead: None,
@@ -1074,6 +1079,7 @@ impl C03 {
 						let dflt = &sim.w.configs[from].channel_config;
 						let mut pols: Vec<(u64, u64)> = sim.w.nodes[from].node.list_channels().iter().filter_map(|c| c.config).map(|c| (c.forwarding_fee_base_msat as u64, c.forwarding_fee_proportional_millionths as u64)).collect();
 						pols.push((dflt.forwarding_fee_base_msat as u64, dflt.forwarding_fee_proportional_millionths as u64));
+						pols.extend(self.start_pols.get(from).cloned().unwrap_or_default());
 						let fee_matches = |down_amt: u64, up_amt: u64| pols.iter().any(|(fb, fp)| down_amt + fb + down_amt * fp / 1_000_000 == up_amt);
 						let exact_key = self.htlcs.iter().find(|(k, d)| k.1 == from && d.hash == h.hash && d.fail_delivered && !d.fail_consumed && fee_matches(d.amt, h.amt)).map(|(k, _)| *k);
 						let siblings = self.htlcs.iter().filter(|(k, u)| k.0 == chan && k.1 == to && u.hash == h.hash).count();
